@@ -725,8 +725,25 @@ def run_modules(chk, mods, buffers_per_struct, r, model_ok, tier, compiler="clan
     run_items, metas = [], []
     for (mod, origin, prep, tops, fixed), (binary, log) in zip(preps, built_bins):
         if binary is None:
-            raise common.InfraError("driver for module %s does not compile:\n%s\n%s" % (
-                mod.name, log[-3000:], prep["text"]))
+            # Does the generated header compile at all?  If it does, it is the text output / input
+            # of an accepted module that does not compile: the property cannot hold for that module
+            # (a concrete failing input: the module).  Otherwise: C07's business / infrastructure.
+            hname = "%s.emb.h" % mod.name
+            probe, plog = cppbuild.compile_one(cppbuild.CHECK_PRELUDE + '#include "%s"\nint main() { return 0; }\n' % hname,
+                                               name="c06_probe_" + mod.name, extra=["-I" + scratch],
+                                               compiler=compiler, opt=opt, defines=tuple(defines))
+            if probe is None:
+                raise common.InfraError("driver for module %s does not compile (nor does the bare header):\n%s\n%s" % (
+                    mod.name, log[-3000:], prep["text"]))
+            errs = [ln for ln in log.split("\n") if "error" in ln][:6]
+            chk.violation("input", {
+                "part": "TXT", "origin": origin, "emb": prep["text"], "kind_of_failure": "text-io-does-not-compile",
+                "observed": ["the generated header compiles, WriteToString / UpdateFromText / field access of its "
+                             "structs does not"] + errs,
+                "compiler_log_tail": log[-3000:],
+                "expected": "for every accepted module WriteToString and UpdateFromText of every struct compile and "
+                            "round-trip"})
+            continue
         lines, meta = [], []
         for st in tops:
             if fixed is not None:
